@@ -819,7 +819,7 @@ func indexMaintenanceRule(c *Ctx, rule string) {
 	identity := ""
 	for _, b := range updF.Blocks {
 		for _, in := range b.Instrs {
-			if lk, ok := in.(*ssa.Lookup); ok {
+			if lk, ok := in.(*ssa.Lookup); ok && identity == "" { // the first lookup: the element being updated
 				switch kk := stripConv(lk.Index).(type) {
 				case *ssa.Field:
 					if s2, isS := kk.X.Type().Underlying().(*types.Struct); isS {
